@@ -125,6 +125,21 @@ def from_obj(o):
                 sw=o.ctrlpts_size_w, P=P, dim=o.dimension)
 
 
+def views_why(o):
+    """the three views of a rational object (ctrlptsw / ctrlpts / weights, the latter two possibly cached) must describe the
+    same net: None, or a sentence saying what is inconsistent (non-rational objects: None)"""
+    if not o.rational:
+        return None
+    tof = lambda x: x.q if hasattr(x, 'q') else F(x)
+    pw, pts, ws = o.ctrlptsw, o.ctrlpts, o.weights
+    if len(pts) != len(pw) or len(ws) != len(pw):
+        return "the object reports %d homogeneous control points but %d points / %d weights" % (len(pw), len(pts), len(ws))
+    for k, (h, x, w) in enumerate(zip(pw, pts, ws)):
+        if tof(h[-1]) != tof(w) or any(tof(a) != tof(b) * tof(w) for a, b in zip(h, x)):
+            return "control point %d: ctrlpts / weights are not the homogeneous point divided by / its weight" % k
+    return None
+
+
 # ------------------------------------------------------------------ independent exact evaluation (oracle)
 def eval_ref(d, params):
     """the definition: tensor-product sum of Cox-de Boor functions times control points / weight function"""
